@@ -62,7 +62,8 @@ BGVals == [ key    : {"registered", "other_issuer", "unregistered"},
             iatopt : BOOLEAN,
             jti    : {"fresh", "absent"},
             jtiopt : BOOLEAN,
-            scope  : {"covered", "not_covered", "none"},
+            \* key_scopeless*: the signing key is registered without any scope: it covers no requested scope at all
+            scope  : {"covered", "not_covered", "none", "key_scopeless", "key_scopeless_none"},
             client : {"none", "authenticated"},
             form   : {"normal", "empty_assertion", "garbage_assertion"} ]
 BGGood == [key |-> "registered", kid |-> "right", who |-> "registered", aud |-> "token_url", exp |-> "future", nbf |-> "absent",
@@ -75,7 +76,7 @@ BGAccept(r) ==
   /\ r.exp \in {"future", "future_frac"} /\ r.nbf \in {"absent", "past"}
   /\ (r.iat = "present" \/ r.iatopt)
   /\ (r.jti = "fresh" \/ r.jtiopt)
-  /\ r.scope \in {"covered", "none"}
+  /\ r.scope \in {"covered", "none", "key_scopeless_none"}
   /\ r.form = "normal"
 BGRows == { [tbl |-> "BG", f |-> r, accept |-> BGAccept(r)] : r \in {x \in BGVals : BGDev(x) <= MaxDev} }
 
